@@ -32,7 +32,7 @@ import (
 // policy, only once the XR is gone.
 //
 //gosym:harness
-//gosym:cover finalizer-removed waiting-foreground xr-deleted xr-lingers fault-hit no-match-error
+//gosym:cover finalizer-removed waiting-foreground xr-deleted xr-lingers fault-hit no-match-error older-version-in-ref
 func HarnessC08Claim() {
 	s := kube.New()
 	cm := claim.New(claim.WithGroupVersionKind(zzClaimGVK))
@@ -42,7 +42,15 @@ func HarnessC08Claim() {
 	cm.SetFinalizers([]string{finalizer})
 	now := metav1.Now()
 	cm.SetDeletionTimestamp(&now)
-	cm.Object["spec"] = map[string]any{"resourceRef": map[string]any{"apiVersion": "example.org/v1", "kind": "XR", "name": "xr-1"}}
+	// the reference may name the XR at an older API version than the one the
+	// claim's controller serves now (the XRD's referenceable version changed
+	// while the claim was terminating)
+	refVersion := "example.org/v1"
+	if zz.Bool("claim.resourceRef.olderVersion") {
+		zz.Cover("older-version-in-ref")
+		refVersion = "example.org/v1alpha1"
+	}
+	cm.Object["spec"] = map[string]any{"resourceRef": map[string]any{"apiVersion": refVersion, "kind": "XR", "name": "xr-1"}}
 	policy := zz.Choose("claim.compositeDeletePolicy", 3) // unset, Background, Foreground
 	switch policy {
 	case 1:
